@@ -249,23 +249,34 @@ def run(ctx):
     # ------------------------------------------------------------------ R8: condition codes
     ctx.rule("C02.R8", "condition codes: signed comparison with zero; N/Z/P bit values shared with the BR mask", floor=3)
     sf = ctx.fn(RS + "::set_flags")
-    cmpc = [t for b, t, c in sf.calls() if c and c.endswith("::cmp")]
-    ctx.need(len(cmpc) == 1, "cmp call in set_flags")
-    a = [kit.resolve_promoteds(prog, sf.expr(x, 8)) for x in cmpc[0]["args"]]
-    sa = [expr_str(x) for x in a]
-    ok = sa[0] in ("&(val as i16)",) and sa[1] in ("&0", "0") and "i16" in (callee_of(cmpc[0]) or "") or ("(val as i16)" in sa[0] and sa[1].strip("&*") == "0")
-    ctx.instance(1, {"set_flags compares": sa})
-    ctx.oblig(ok)
-    if not ok:
-        ctx.violation("flags-compare", sf.file_line(), "set_flags compares %s (expected the value as i16 with 0)" % sa)
-    tab = tables.enum_const_table(prog, sf, "core::cmp::Ordering")
-    got = {k: tables.variant_path(v) for k, v in tab.items()}
-    want = {"Less": "N", "Equal": "Z", "Greater": "P"}
-    ctx.instance(1, {"ordering -> flag": got})
-    ok = got == want
-    ctx.oblig(ok)
-    if not ok:
-        ctx.violation("flags-table", sf.file_line(), "set_flags maps %s (expected Less->N, Equal->Z, Greater->P)" % got)
+    tree = formula.decision(sf, result_place=lambda p: [e.get("n") for e in p.get("pr", []) if isinstance(e, dict) and "f" in e][-1:] == ["flag"])
+    tree = formula.map_tree(tree, lambda c: kit.resolve_promoteds(prog, c))
+    bad = None
+    ncell = 0
+    for val in (0, 1, 2, 0x7FFE, 0x7FFF, 0x8000, 0x8001, 0xFFFE, 0xFFFF):
+        ncell += 1
+        try:
+            lab = formula.eval_decision(tree, {"args": {"val": val, 2: val}})
+        except (formula.Unknown, formula.Overflow) as exn:
+            bad = (val, "undecidable: %s" % exn)
+            break
+        got = formula.label_variant(kit.resolve_promoteds(prog, lab)) if lab else None
+        sv = val - 65536 if val >= 32768 else val
+        want = "N" if sv < 0 else ("Z" if sv == 0 else "P")
+        if got != want:
+            bad = (val, "%s, the ISA says %s" % (got, want))
+            break
+    # premise for the cell argument: the value is only compared (with constants), possibly after a cast
+    conds = formula.tree_conditions(tree)
+    cmp_only = all(_cmp_only(c) for c in conds)
+    ctx.instance(1, {"set_flags conditions": [expr_str(c, 80) for c in conds], "cells": ncell})
+    ctx.oblig(cmp_only, {"premise": "value only compared"}, "structure of the conditions")
+    if not cmp_only:
+        ctx.violation("flags-not-comparison", sf.file_line(), "set_flags does more than compare the value; its N/Z/P table cannot be decided structurally: %s" % [expr_str(c, 80) for c in conds])
+    ctx.instance(1)
+    ctx.oblig(bad is None, {"N/Z/P": "sign of the value as i16"}, "decision structure on boundary cells")
+    if bad:
+        ctx.violation("flags-table", sf.file_line(), "set_flags(0x%04X) sets %s" % bad)
     # RunFlag discriminants = encoder letters
     rf = {v["name"]: v.get("discr", v["idx"]) for v in prog.adt("lace::runtime::RunFlag")["variants"]}
     ok = rf == {"N": 4, "Z": 2, "P": 1, "Uninit": 0}
@@ -304,3 +315,18 @@ def range_loop_bound(fn, op):
                     if y[2][0][0] == "const" and y[2][1][0] == "const":
                         return (y[2][0][1], y[2][1][1] - 1)
     return None
+
+
+def _cmp_only(c):
+    """condition is a comparison (or the discriminant of a cmp call) between the (cast) value and constants"""
+    def leaf_ok(e):
+        while e[0] in ("cast", "ref", "deref"):
+            e = e[3] if e[0] == "cast" else e[1]
+        return e[0] in ("arg", "const", "local")
+    if c[0] == "bin" and c[1] in ("Lt", "Le", "Gt", "Ge", "Eq", "Ne"):
+        return leaf_ok(c[2]) and leaf_ok(c[3])
+    if c[0] == "discr" and c[1][0] == "call" and c[1][1] and c[1][1].endswith("::cmp"):
+        return all(leaf_ok(a) for a in c[1][2])
+    if c[0] == "un" and c[1] == "Not":
+        return _cmp_only(c[2])
+    return False
